@@ -13,6 +13,9 @@ def generate(tier, rng):
         for v in e.variants:
             if v.default:
                 v.dis = True   # C18's domain has no (effective) default variant; a disabled one must be ignored entirely
+    for j, e in enumerate(enums):
+        if e.prefix is None and j % 3 == 0:
+            e.prefix = ['colour/', 'p_', 'É-'][(j // 3) % 3]
     info = strcorpus.query_model(enums)
     c = Corpus()
     for e in enums:
